@@ -354,6 +354,21 @@ fn exec_inner(src: &Dyn, objs: &[&Dyn], kind: &OpKind, ctx: &ExecCtx) -> Answer 
     OpKind::Stream { columns, abort_at } => do_stream(src, *columns, *abort_at, ctx),
     OpKind::Hash => Answer::Hash(fx_hash(src)),
     OpKind::Eq { other } => Answer::Bool(src == objs[*other]),
+    OpKind::EqClone => {
+      let c: Box<dyn Source> = dyn_clone::clone_box(src);
+      if ctx.cb_points {
+        user_point("op.cloned");
+      }
+      Answer::Bool(src == &*c && &*c == src)
+    }
+    OpKind::Lookup { probe } => {
+      let mut m: std::collections::HashMap<&Dyn, u32> = std::collections::HashMap::new();
+      m.insert(src, 1);
+      if ctx.cb_points {
+        user_point("op.inserted");
+      }
+      Answer::Bool(m.get(&objs[*probe]).is_some())
+    }
     OpKind::CloneThen { then } => {
       let c: Box<dyn Source> = dyn_clone::clone_box(src);
       if ctx.cb_points {
